@@ -32,11 +32,20 @@ func (m *mval) encode() string {
 	return m.enc
 }
 
+// deep copy (Clone): nothing is shared with the source
 func (m *mval) copyv() *mval {
 	c := &mval{typ: m.typ, enc: m.enc}
 	for _, e := range m.elem {
 		c.elem = append(c.elem, e.copyv())
 	}
+	return c
+}
+
+// list-level copy (Assign, SetAsObject(*Variant), SetAsArray): an own list, the element objects
+// are the same objects (the documented sharing of the library)
+func (m *mval) copyList() *mval {
+	c := &mval{typ: m.typ, enc: m.enc}
+	c.elem = append(c.elem, m.elem...)
 	return c
 }
 
@@ -129,7 +138,7 @@ func runVarCase(c *Ctx, ops []string) {
 						host, want = n, &mval{typ: variants.Long, enc: "l" + payload}
 					case "var":
 						s := idx(payload)
-						host, want = slots[s], model[s].copyv()
+						host, want = slots[s], model[s].copyList()
 					case "nil":
 						host, want = nil, mnull()
 					case "other":
@@ -210,12 +219,24 @@ func runVarCase(c *Ctx, ops []string) {
 						}
 						model[k].elem[i] = mvalOf(e)
 					}
+				case "midx":
+					// mutate an element object in place through the pointer GetByIndex hands out
+					k := idx(p[1])
+					i := idx(p[2])
+					e := decVariant(p[3])
+					slots[k].GetByIndex(i).Assign(e)
+					if model[k].typ == variants.Array && i >= 0 && i < len(model[k].elem) {
+						nv := mvalOf(e)
+						*model[k].elem[i] = *nv
+					}
 				case "gidx":
 					k := idx(p[1])
 					out = encVariant(slots[k].GetByIndex(idx(p[2])))
 				case "asg":
 					slots[idx(p[1])].Assign(slots[idx(p[2])])
-					model[idx(p[1])] = model[idx(p[2])].copyv()
+					if idx(p[1]) != idx(p[2]) {
+						model[idx(p[1])] = model[idx(p[2])].copyList()
+					}
 				case "cln":
 					slots[idx(p[1])] = slots[idx(p[2])].Clone()
 					model[idx(p[1])] = model[idx(p[2])].copyv()
@@ -336,7 +357,15 @@ func propC20(c *Ctx) {
 				}
 				ops[j] = fmt.Sprintf("sidx:%d:%d:%s", k, c.Rng.Intn(7)-1, e)
 			case 6:
-				ops[j] = fmt.Sprintf("gidx:%d:%d", k, c.Rng.Intn(6)-1)
+				if c.Rng.Intn(2) == 0 {
+					e := scalars[c.Rng.Intn(len(scalars))]
+					for strings.Contains(e, "NaN") {
+						e = scalars[c.Rng.Intn(len(scalars))]
+					}
+					ops[j] = fmt.Sprintf("midx:%d:%d:%s", k, c.Rng.Intn(5), e)
+				} else {
+					ops[j] = fmt.Sprintf("gidx:%d:%d", k, c.Rng.Intn(6)-1)
+				}
 			case 7:
 				ops[j] = fmt.Sprintf("asg:%d:%d", k, c.Rng.Intn(4))
 			case 8, 9:
@@ -355,6 +384,10 @@ func propC20(c *Ctx) {
 	runVarCase(c, []string{"set:0:a[i1/i2]", "cln:1:0", "sidx:1:0:i9", "obs:0", "eq:0:1"})
 	runVarCase(c, []string{"set:0:a[i1/i2]", "set:1:a[i1/i2]", "eq:0:1", "asg:2:0", "sidx:2:1:s97", "obs:0", "len:2:5", "obs:0"})
 	runVarCase(c, []string{"new:0:list:a[i1/i2]", "mut:0", "obs:0", "new:1:var:0", "sidx:1:0:n", "obs:0"})
+	// in-place mutation of elements: a clone is isolated, padding cells are fresh objects
+	runVarCase(c, []string{"set:0:a[i1/i2]", "cln:1:0", "midx:1:0:i9", "obs:0", "obs:1"})
+	runVarCase(c, []string{"set:0:a[i1]", "sidx:0:3:i5", "midx:0:1:i7", "obs:0", "set:1:a[]", "sidx:1:2:b1", "obs:1"})
+	runVarCase(c, []string{"set:0:a[a[i1]/i2]", "cln:1:0", "gidx:1:0", "midx:1:1:s97", "eq:0:1", "obs:0"})
 	// D30 (known finding): an unsigned host value above MaxInt64 does not fit the Long it is mapped to
 	runVarCase(c, []string{"new:0:uint:18446744073709551615", "obs:0"})
 	runVarCase(c, []string{"new:0:uint:9223372036854775808", "obs:0"})
